@@ -13,10 +13,10 @@ CLAIM = dict(
           "(reduction_slices -> slice -> flatten -> reducer_t) returns the LEFT fold, seeded by `initial` or by the first element, of "
           "exactly the source elements whose non-reduced coordinates equal the result index, the reduced coordinates running in "
           "nested-loop (increasing index) order; the result depends on the axis argument only through the set of normalised axes; "
-          "reducing over all axes equals axis=None; accumulate along a non-negative axis is the running left fold a[..,0..i,..] with "
-          "the source shape; sum/prod/amax/amin are the instances f = +, *, max, min over Z; mean's divisor equals the number of "
-          "folded elements. Refuted (and listed as a finding): accumulate with a NEGATIVE axis is not normalised and returns the "
-          "input. Tied to the C++ by running view::reduce (general entry point, incl. multi-axis subtract), reduce_add / multiply / "
+          "reducing over all axes equals axis=None; accumulate along any valid axis, written with either sign (index::wrap_axis), is the "
+          "running left fold a[..,0..i,..] with the source shape; sum/prod/amax/amin are the instances f = +, *, max, min over Z; mean's divisor equals the number of "
+          "folded elements. (Two defects found by this check were repaired centrally: accumulate ignored a negative axis; "
+          "vector_norm(double, axis=None) took the root in single precision.) Tied to the C++ by running view::reduce (general entry point, incl. multi-axis subtract), reduce_add / multiply / "
           "subtract / maximum / minimum, sum, prod, amax, amin, accumulate_* / cumsum / cumprod on every shape of dim 1..4 extents "
           "1..3, every non-empty axis subset in two orders with mixed signs, axis None, keepdims absent / run-time bool / True_ / False_, "
           "initial absent / present, axis as int / std::vector / std::array / compile-time constants (meta::ct, tuple of ct), run-time-rank and fixed-rank arrays. mean / var / stddev / "
@@ -33,9 +33,9 @@ RULE = ("every shape dim 1..4 extents 1..3 (thorough: 1..4) x every non-empty su
         "sample of shapes; explicit dtype and uint8 samples; compile-time axis constants from a fixed table; a few out-of-quantifier axis arguments (spec unspecified). non-trivial = source of dim >= 2 with an extent > 1; "
         "distinct = distinct case lines")
 THEOREM_STATUS = {"proved": ["C08_reduce_shape", "C08_reduce_elem", "C08_axes_order_and_sign", "C08_axes_permutation_same_mask",
-                             "C08_reduce_all_axes_eq_none", "C08_accumulate_on_domain", "C08_sum_prod_amax_amin",
+                             "C08_reduce_all_axes_eq_none", "C08_accumulate", "C08_sum_prod_amax_amin",
                              "C08_mean_divisor_counts_folded_elements"],
-                  "partial": [], "refuted": ["C08_accumulate_negative_axis_refuted"]}
+                  "partial": [], "refuted": []}
 ASSUMPTIONS = ["extents are positive; axes valid and duplicate-free (outside: C15)",
                "the {start,stop} slice view with 0 <= start <= stop <= extent reads source coordinate start+k (slice arithmetic is C05)",
                "integer data stays inside int64 (generators keep partial results small); floating-point statistics only up to 1e-9"]
@@ -139,7 +139,7 @@ def gen_cases(rng, tier):
         data = [rng.randint(-9, 9) for _ in range(size(shape))]
         fn = ["mean", "var", "stddev", "vnorm"][i % 4]
         if fn == "vnorm":
-            out.append(("statistics", "vnorm S:%s %s %s I:%d" % (kd, A(shape, data), ax, rng.choice([1, 2, 2])), "c08s"))
+            out.append(("statistics", "vnorm S:%s %s %s I:%d" % (kd, A(shape, data), ax, rng.choice([1, 2, 2, 3])), "c08s"))
         else:
             ddof = 1 if (fn != "mean" and nred > 1 and rng.random() < 0.4) else 0
             out.append(("statistics", "stat S:%s S:%s %s %s I:%d" % (fn, kd, A(shape, data), ax, ddof), "c08s"))
@@ -222,16 +222,4 @@ def equal(a, b):
 
 
 def classify(line, impl, spec, model):
-    t = line.split(" ")
-    if t[0] == "accum":
-        axis = int(t[4][2:]); d = len(_shape_of(line))
-        # the defect the model predicts: a negative (valid) axis is compared un-normalised, the view returns its input
-        if -d <= axis < 0 and equal(impl, model): return "accumulate-negative-axis"
-    if t[0] == "vnorm" and t[3] == "N" and t[1][2:] in ("def", "rt0", "ct0"):
-        # axis=None without keepdims: the root is computed in float (power_t casts the 0-dim sum view to float)
-        x, y = _split(impl), _split(spec)
-        if x and y and x[0] == y[0] and len(x[1]) == len(y[1]) == 1:
-            try: fu, fv = float(x[1][0]), float(y[1][0])
-            except ValueError: return None
-            if abs(fu - fv) <= 2e-7 * max(abs(fu), abs(fv)) + 1e-12: return "vector_norm-none-axis-single-precision"
     return None
